@@ -1,14 +1,18 @@
 package streams
 
 import (
+	"math"
 	"strconv"
 	"strings"
 
 	"go.mongodb.org/mongo-driver/bson"
 	"go.mongodb.org/mongo-driver/bson/primitive"
 
+	"github.com/256dpi/lungo"
 	"github.com/256dpi/lungo/bsonkit"
 	"github.com/256dpi/lungo/mongokit"
+
+	"verifharness/internal/gen"
 )
 
 // Generator profile "idx" of the "api" stream (C07 / C15): histories on ONE collection that are
@@ -45,10 +49,14 @@ type idxScen struct {
 	named   bool
 	phase   int
 	marks   int
+	cols    []string // wide: the 4–5 key columns
+	dirs    []int32
+	arrCol  int         // wide: the column that holds the array (the last or a middle one)
+	cluster [2]int      // numkeys: the clusters of neighbouring numbers most keys come from
 	lastKey interface{} // a key value that a recent write freed or tried to take
 }
 
-var idxScenKinds = []string{"partial", "partial", "shift", "shift", "dupbuild", "bulk", "bulk", "multikey", "multikey"}
+var idxScenKinds = []string{"partial", "partial", "shift", "shift", "dupbuild", "bulk", "bulk", "multikey", "multikey", "wide", "wide", "numkeys", "numkeys"}
 
 func (g *apiGen) initIdx() {
 	r := g.r
@@ -112,6 +120,31 @@ func (g *apiGen) initIdx() {
 		s.unique = r.P(60)
 		if r.P(20) {
 			s.key2 = "x"
+		}
+	case "wide":
+		all := []string{"a", "b", "c", "x", "y"}
+		for i := len(all) - 1; i > 0; i-- {
+			j := r.N(i + 1)
+			all[i], all[j] = all[j], all[i]
+		}
+		n := 4 + r.N(2)
+		s.cols = all[:n]
+		for i := 0; i < n; i++ {
+			s.dirs = append(s.dirs, int32(1-2*r.N(2)))
+		}
+		s.arrCol = n - 1
+		if r.P(50) {
+			s.arrCol = 1 + r.N(n-2) // a middle column
+		}
+		s.key = s.cols[0]
+		if r.P(15) {
+			s.pkind, s.pfield = "exists", s.cols[s.arrCol]
+		}
+	case "numkeys":
+		s.cluster = [2]int{r.N(len(idxNumClusters)), r.N(len(idxNumClusters))}
+		s.key = []string{"a", "b", "x"}[r.N(3)]
+		if r.P(25) {
+			s.key2 = "c"
 		}
 	}
 	g.idx = s
@@ -292,6 +325,12 @@ func (g *apiGen) idxCreate(c *apiCall) {
 	if s.key2 != "" {
 		c.Keys = append(c.Keys, bson.E{Key: s.key2, Value: int32(1 - 2*g.r.N(2))})
 	}
+	if len(s.cols) > 0 {
+		c.Keys = bson.D{}
+		for i, f := range s.cols {
+			c.Keys = append(c.Keys, bson.E{Key: f, Value: s.dirs[i]})
+		}
+	}
 	c.Unique = s.unique
 	c.Partial, c.HasPartial = g.idxPartial()
 	if s.named {
@@ -383,6 +422,11 @@ func (g *apiGen) idxNext(c *apiCall) *apiCall {
 	c.DB, c.Coll = db, coll
 	docs := g.docs(db, coll)
 	s.phase++
+	if s.phase > 3 && len(docs) > 1 && g.r.P(9) {
+		if rc := g.idxRead(c, docs); rc != nil {
+			return rc
+		}
+	}
 	switch s.kind {
 	case "partial":
 		return g.idxPartialNext(c, docs)
@@ -394,8 +438,84 @@ func (g *apiGen) idxNext(c *apiCall) *apiCall {
 		return g.idxBulkNext(c, docs)
 	case "multikey":
 		return g.idxMultikeyNext(c, docs)
+	case "wide":
+		return g.idxWideNext(c, docs)
+	case "numkeys":
+		return g.idxNumKeysNext(c, docs)
 	}
 	return nil
+}
+
+// idxRead: a read (or find-and-modify) whose sort specification is the key of an existing index of
+// the collection — the order must still be "filter, stable sort, skip, limit" over ALL documents
+// (also those outside a partial filter; ties in natural order).
+func (g *apiGen) idxRead(c *apiCall, docs bsonkit.List) *apiCall {
+	r := g.r
+	ns := g.env.engine.Catalog().Namespaces[lungo.Handle{c.DB, c.Coll}]
+	if ns == nil {
+		return nil
+	}
+	names := g.indexNames(c.DB, c.Coll)
+	if sec := g.secondaryIndexNames(c.DB, c.Coll); len(sec) > 0 && r.P(85) {
+		names = sec
+	}
+	if len(names) == 0 {
+		return nil
+	}
+	cfg := ns.Indexes[names[r.N(len(names))]].Config()
+	c.Sort, c.HasSort = *cfg.Key, true
+	if r.P(20) {
+		// the reversed key is served by the same index read backwards
+		rev := bson.D{}
+		for _, e := range c.Sort {
+			d, _ := e.Value.(int32)
+			rev = append(rev, bson.E{Key: e.Key, Value: -d})
+		}
+		c.Sort = rev
+	}
+	switch k := r.N(100); {
+	case k < 40:
+		c.Q = bson.D{}
+	case k < 55 && cfg.Partial != nil:
+		c.Q = *cfg.Partial
+	case k < 75 && len(docs) > 0:
+		d := *docs[r.N(len(docs))]
+		e := d[r.N(len(d))]
+		if _, isRe := e.Value.(primitive.Regex); isRe {
+			c.Q = bson.D{}
+		} else {
+			c.Q = bson.D{{Key: e.Key, Value: bson.D{{Key: []string{"$gte", "$lte", "$ne"}[r.N(3)], Value: idxCopy(e.Value)}}}}
+		}
+	default:
+		c.Q = bson.D{{Key: c.Sort[0].Key, Value: bson.D{{Key: "$exists", Value: r.P(70)}}}}
+	}
+	switch k := r.N(100); {
+	case k < 50:
+		c.M = "find"
+		if r.P(50) {
+			c.HasSkip, c.Skip = true, int64(r.N(3))
+		}
+		if r.P(50) {
+			c.HasLimit, c.Limit = true, int64(1+r.N(3))
+		}
+	case k < 70:
+		c.M = "findOne"
+		if r.P(40) {
+			c.HasSkip, c.Skip = true, int64(r.N(3))
+		}
+	case k < 80:
+		c.M = "findOneAndDelete"
+	case k < 90:
+		c.M, c.After = "findOneAndUpdate", r.P(50)
+		c.U = bson.D{{Key: "$inc", Value: bson.D{{Key: "n", Value: int32(1)}}}}
+	default:
+		c.M, c.After = "findOneAndReplace", r.P(50)
+		c.Repl = bson.D{{Key: "n", Value: int32(r.N(3))}}
+		if len(docs) > 0 {
+			c.Repl = idxRewrite(docs[r.N(len(docs))], bson.D{{Key: "n", Value: int32(r.N(3))}}, nil, false)
+		}
+	}
+	return c
 }
 
 // ---- scenario: partial ----
@@ -1186,6 +1306,289 @@ func (g *apiGen) idxMultikeyNext(c *apiCall, docs bsonkit.List) *apiCall {
 		} else {
 			g.idxCreate(c)
 		}
+		return c
+	}
+	return nil
+}
+
+// ---- scenario: wide (unique compound multikey index over 4–5 columns) ----
+
+// idxWideDoc: the scalar columns mostly share one prefix (0, 0, …); the array column holds 2–3
+// small numbers, so two documents typically meet in a NON-LAST element.
+func (g *apiGen) idxWideDoc(id interface{}) bson.D {
+	r := g.r
+	s := g.idx
+	d := bson.D{}
+	if id != nil {
+		d = append(d, bson.E{Key: "_id", Value: id})
+	}
+	arrCol := s.arrCol
+	if r.P(12) {
+		arrCol = r.N(len(s.cols)) // the array sits in another column of this document (still only one)
+	}
+	if r.P(8) {
+		arrCol = -1 // no array at all
+	}
+	order := r.N(len(s.cols)) // fields are not stored in key order
+	for k := range s.cols {
+		i := (k + order) % len(s.cols)
+		f := s.cols[i]
+		switch {
+		case i == arrCol:
+			d = append(d, bson.E{Key: f, Value: g.idxWideArr()})
+		case r.P(5):
+			// missing column
+		case r.P(82):
+			d = append(d, bson.E{Key: f, Value: g.idxNum(0)})
+		default:
+			d = append(d, bson.E{Key: f, Value: g.idxNum(1)})
+		}
+	}
+	return d
+}
+
+func (g *apiGen) idxWideArr() bson.A {
+	r := g.r
+	a := bson.A{}
+	for n := 2 + r.N(2); n > 0; n-- {
+		a = append(a, g.idxNum(1+r.N(6)))
+	}
+	if r.P(6) {
+		return bson.A{}
+	}
+	return a
+}
+
+func (g *apiGen) idxWideNext(c *apiCall, docs bsonkit.List) *apiCall {
+	r := g.r
+	s := g.idx
+	has := g.idxHasSecondary(c.DB, c.Coll)
+	buildLate := s.dirs[0] > 0 && s.dirs[1] > 0 // a quarter of the histories build the index over existing data
+	if (s.phase == 1 && !buildLate) || (s.phase == 4 && buildLate) {
+		g.idxCreate(c)
+		return c
+	}
+	arrF := s.cols[s.arrCol]
+	k := r.N(100)
+	if len(docs) < 2 {
+		k = r.N(30)
+	}
+	switch {
+	case k < 30:
+		c.M, c.Doc = "insertOne", g.idxWideDoc(g.idxFreshID(docs))
+		if r.P(20) {
+			c.M, c.Ordered = "insertMany", r.P(50)
+			c.Docs = []bson.D{c.Doc, g.idxWideDoc(int32(30 + s.phase)), g.idxWideDoc(int32(60 + s.phase))}
+			c.Doc = nil
+		}
+		return c
+	case k < 62 && len(docs) > 0:
+		d := docs[r.N(len(docs))]
+		c.M = []string{"updateOne", "updateOne", "updateMany", "findOneAndUpdate"}[r.N(4)]
+		c.Q = idByID(d)
+		if c.M == "updateMany" && r.P(50) {
+			c.Q = bson.D{}
+		}
+		switch r.N(8) {
+		case 0, 1:
+			c.U = bson.D{{Key: "$push", Value: bson.D{{Key: arrF, Value: g.idxNum(1 + r.N(6))}}}}
+		case 2:
+			c.U = bson.D{{Key: "$push", Value: bson.D{{Key: arrF, Value: bson.D{{Key: "$each", Value: bson.A{g.idxNum(1 + r.N(6))}}, {Key: "$position", Value: int32(r.N(2))}}}}}}
+		case 3:
+			c.U = bson.D{{Key: "$set", Value: bson.D{{Key: arrF + "." + strconv.Itoa(r.N(3)), Value: g.idxNum(1 + r.N(6))}}}}
+		case 4:
+			c.U = bson.D{{Key: "$set", Value: bson.D{{Key: arrF, Value: g.idxWideArr()}}}}
+		case 5:
+			c.U = bson.D{{Key: "$pop", Value: bson.D{{Key: arrF, Value: int32(1 - 2*r.N(2))}}}}
+		case 6:
+			// change a scalar prefix column: leaves / joins the group of documents that share the prefix
+			f := s.cols[r.N(len(s.cols))]
+			if f == arrF {
+				f = s.cols[0]
+			}
+			c.U = bson.D{{Key: "$set", Value: bson.D{{Key: f, Value: g.idxNum(r.N(2))}}}}
+		default:
+			c.U = bson.D{{Key: "$pull", Value: bson.D{{Key: arrF, Value: g.idxNum(1 + r.N(6))}}}}
+		}
+		return c
+	case k < 74 && len(docs) > 0:
+		d := docs[r.N(len(docs))]
+		c.M = []string{"replaceOne", "findOneAndReplace"}[r.N(2)]
+		c.Q, c.Upsert = idByID(d), r.P(25)
+		c.Repl = g.idxWideDoc(nil)
+		return c
+	case k < 82:
+		// upserts: the document comes from the filter's equalities and the update
+		c.M = []string{"updateOne", "replaceOne", "findOneAndUpdate"}[r.N(3)]
+		c.Upsert = true
+		c.Q = bson.D{{Key: "_id", Value: g.idxFreshID(docs)}}
+		nd := g.idxWideDoc(nil)
+		if c.M == "replaceOne" {
+			c.Repl = nd
+		} else {
+			if len(nd) > 1 && r.P(50) {
+				c.Q = append(c.Q, nd[0])
+				nd = nd[1:]
+			}
+			if len(nd) == 0 {
+				nd = bson.D{{Key: "n", Value: int32(1)}}
+			}
+			c.U = bson.D{{Key: "$set", Value: nd}}
+		}
+		return c
+	case k < 87 && len(docs) > 0:
+		c.M, c.Q = []string{"deleteOne", "findOneAndDelete"}[r.N(2)], idByID(docs[r.N(len(docs))])
+		return c
+	case k < 93:
+		// build over existing data: drop and create again (fails while two documents meet)
+		if has && r.P(45) {
+			sec := g.secondaryIndexNames(c.DB, c.Coll)
+			c.M, c.Name = "dropIndex", sec[r.N(len(sec))]
+			return c
+		}
+		g.idxCreate(c)
+		return c
+	}
+	return nil
+}
+
+// ---- scenario: numkeys (unique index over numeric edge values) ----
+
+var idxNumEdges = func() []interface{} {
+	var out []interface{}
+	for _, n := range gen.Ints {
+		out = append(out, n)
+		if n >= -(1<<31) && n < 1<<31 {
+			out = append(out, int32(n))
+		}
+	}
+	for _, f := range gen.Floats {
+		out = append(out, f)
+	}
+	for _, d := range gen.Decs {
+		if _, exp, err := d.BigInt(); err == nil && (exp > 400 || exp < -400) {
+			continue // 1E6111, 1E-6176: exact arithmetic on them dominates the model's run time; stream cmp covers them
+		}
+		out = append(out, d)
+	}
+	// the same number in every representation, and close neighbours
+	for _, s := range []string{"9007199254740992", "9007199254740993", "9007199254740991", "-9223372036854775808", "9223372036854775807",
+		"4611686018427387904", "4611686018427387905", "0", "-0", "0E+3", "0E-10", "1.00", "1E+0", "10E-1", "2147483648", "0.5", "0.50"} {
+		if d, err := primitive.ParseDecimal128(s); err == nil {
+			out = append(out, d)
+		}
+	}
+	out = append(out, float64(1<<53), float64(1<<53)+2, float64(-(1 << 63)), float64(1<<62), float64(1<<62)+1024, int64(1<<53), int64(1<<53+1), int64(1<<53-1),
+		int64(-(1 << 63)), int64(1<<62), int64(1<<62+1), int64(1<<63-1), float64(1<<63), int64(0), float64(0), int32(0), int32(1), float64(1), int64(1),
+		primitive.Timestamp{T: 0, I: 1}, primitive.Timestamp{T: 1 << 31, I: 0}, primitive.Timestamp{T: 1<<32 - 1, I: 1<<32 - 1}, primitive.Timestamp{T: 1, I: 0},
+		primitive.DateTime(-1<<62), primitive.DateTime(1<<62), primitive.DateTime(0))
+	return out
+}()
+
+func decs(ss ...string) []interface{} {
+	var out []interface{}
+	for _, s := range ss {
+		if d, err := primitive.ParseDecimal128(s); err == nil {
+			out = append(out, d)
+		}
+	}
+	return out
+}
+
+// idxNumClusters: groups of values that are equal or next to each other across representations; a
+// history draws most of its keys from one or two of them.
+var idxNumClusters = [][]interface{}{
+	append([]interface{}{int32(0), int64(0), float64(0), math.Copysign(0, -1)}, decs("0", "-0", "0E+3", "0E-10", "0.00")...),
+	append([]interface{}{int32(1), int64(1), float64(1), math.Nextafter(1, 2)}, decs("1", "1.0", "1.00", "1E+0", "10E-1", "1.000000000000000000000000000000001")...),
+	append([]interface{}{int64(1 << 53), int64(1<<53 + 1), int64(1<<53 - 1), float64(1 << 53), float64(1<<53) + 2, float64(1<<53) - 1}, decs("9007199254740992", "9007199254740993", "9007199254740991", "9007199254740992.0", "9007199254740992.5")...),
+	append([]interface{}{int64(1 << 62), int64(1<<62 + 1), float64(1 << 62), float64(1<<62) + 1024, int64(1<<62 + 1024)}, decs("4611686018427387904", "4611686018427387905", "4611686018427388928")...),
+	append([]interface{}{int64(-(1 << 63)), float64(-(1 << 63)), int64(-(1 << 63) + 1), math.Nextafter(-(1 << 63), 0)}, decs("-9223372036854775808", "-9223372036854775807", "-9223372036854775809")...),
+	append([]interface{}{int64(1<<63 - 1), float64(1 << 63), int64(1<<63 - 2), math.Nextafter(1<<63, 0)}, decs("9223372036854775807", "9223372036854775808", "9223372036854775807.5")...),
+	append([]interface{}{int32(1<<31 - 1), int64(1<<31 - 1), int64(1 << 31), float64(1 << 31), float64(1<<31 - 1), int32(-(1 << 31)), int64(-(1 << 31)), float64(-(1 << 31))}, decs("2147483647", "2147483648", "-2147483648")...),
+	append([]interface{}{float64(0.1), float64(0.5), float64(1e23), float64(1e22), math.NaN(), math.Inf(1)}, decs("0.1", "0.5", "0.50", "1E+23", "1E+22", "0.1000000000000000055511151231257827", "NaN", "Infinity")...),
+	{primitive.Timestamp{T: 0, I: 0}, primitive.Timestamp{T: 0, I: 1}, primitive.Timestamp{T: 1 << 31, I: 0}, primitive.Timestamp{T: 1 << 31, I: 1}, primitive.Timestamp{T: 1<<31 - 1, I: 0},
+		primitive.Timestamp{T: 1<<32 - 1, I: 1<<32 - 1}, primitive.Timestamp{T: 1<<32 - 1, I: 0}, primitive.Timestamp{T: 1, I: 1 << 31}, primitive.Timestamp{T: 1, I: 0}, primitive.Timestamp{T: 0, I: 1 << 31}},
+	{primitive.DateTime(0), primitive.DateTime(1), primitive.DateTime(-1), primitive.DateTime(math.MinInt64), primitive.DateTime(math.MaxInt64), primitive.DateTime(1 << 62), primitive.DateTime(-(1 << 62)),
+		primitive.DateTime(1 << 32), primitive.DateTime(1 << 31)},
+}
+
+func (g *apiGen) idxNumKeysNext(c *apiCall, docs bsonkit.List) *apiCall {
+	r := g.r
+	s := g.idx
+	top := s.key
+	buildLate := s.dir > 0 // half of the histories build the index over existing data
+	if (s.phase == 1 && !buildLate) || (s.phase == 5 && buildLate) {
+		g.idxCreate(c)
+		return c
+	}
+	val := func() interface{} {
+		if len(docs) > 0 && r.P(12) {
+			if v, ok := g.idxKeyOf(docs[r.N(len(docs))]); ok {
+				return v
+			}
+		}
+		if r.P(80) {
+			cl := idxNumClusters[s.cluster[r.N(2)]]
+			return idxCopy(cl[r.N(len(cl))])
+		}
+		return idxCopy(idxNumEdges[r.N(len(idxNumEdges))])
+	}
+	mk := func(id interface{}) bson.D {
+		d := bson.D{}
+		if id != nil {
+			d = append(d, bson.E{Key: "_id", Value: id})
+		}
+		d = append(d, bson.E{Key: top, Value: val()})
+		if s.key2 != "" {
+			d = append(d, bson.E{Key: s.key2, Value: int32(0)})
+		}
+		return d
+	}
+	k := r.N(100)
+	if len(docs) < 2 {
+		k = r.N(40)
+	}
+	switch {
+	case k < 30:
+		c.M, c.Doc = "insertOne", mk(g.idxFreshID(docs))
+		return c
+	case k < 40:
+		c.M, c.Ordered = "insertMany", r.P(50)
+		c.Docs = []bson.D{mk(g.idxFreshID(docs)), mk(int32(40 + s.phase)), mk(int32(70 + s.phase)), mk(int32(100 + s.phase))}
+		return c
+	case k < 58 && len(docs) > 0:
+		c.M = []string{"updateOne", "updateMany", "findOneAndUpdate"}[r.N(3)]
+		c.Q = idByID(docs[r.N(len(docs))])
+		c.U = bson.D{{Key: "$set", Value: bson.D{{Key: top, Value: val()}}}}
+		return c
+	case k < 68 && len(docs) > 0:
+		c.M = []string{"replaceOne", "findOneAndReplace"}[r.N(2)]
+		c.Q, c.Upsert = idByID(docs[r.N(len(docs))]), r.P(25)
+		c.Repl = mk(nil)
+		return c
+	case k < 76:
+		c.M = []string{"updateOne", "replaceOne", "findOneAndUpdate"}[r.N(3)]
+		c.Upsert = true
+		c.Q = bson.D{{Key: "_id", Value: g.idxFreshID(docs)}}
+		if c.M == "replaceOne" {
+			c.Repl = mk(nil)
+		} else if r.P(50) {
+			c.Q = append(c.Q, bson.E{Key: top, Value: val()})
+			c.U = bson.D{{Key: "$set", Value: bson.D{{Key: "n", Value: int32(1)}}}}
+		} else {
+			c.U = bson.D{{Key: "$set", Value: mk(nil)}}
+		}
+		return c
+	case k < 82 && len(docs) > 0:
+		c.M, c.Q = "deleteOne", idByID(docs[r.N(len(docs))])
+		return c
+	case k < 92:
+		if g.idxHasSecondary(c.DB, c.Coll) && r.P(40) {
+			sec := g.secondaryIndexNames(c.DB, c.Coll)
+			c.M, c.Name = "dropIndex", sec[r.N(len(sec))]
+			return c
+		}
+		g.idxCreate(c)
 		return c
 	}
 	return nil
